@@ -1,11 +1,3 @@
-//! C26 (primitive encodings) and C27 (ReadAdapter ≡ SliceReader).
-
-use vcore::*;
-
-mod c26;
-mod c27;
-
 fn main() {
-    let props = vec![c26::prop(), c27::prop()];
-    main_with(props);
+    vcore::main_with(vserde::props());
 }
